@@ -7,7 +7,8 @@ use std::collections::{BTreeMap, BTreeSet};
 use vcore::{Ctx, Outcome};
 
 fn check(case: &Case) -> Outcome {
-    let r = life::run_case(case);
+    // only the notification log is judged here: disagreements of the lifecycle / counter oracles do not end the program
+    let r = life::run_case_focus(case, Some("C07:"));
     if !r.settled {
         return Outcome::Inconclusive("world did not settle".into());
     }
@@ -28,12 +29,30 @@ fn check(case: &Case) -> Outcome {
         let closed: BTreeSet<u64> = r.events[node as usize].iter().filter_map(|e| if let Ev::Closed { conn, .. } = e { Some(*conn) } else { None }).collect();
         for field in 0..case.fields.clamp(1, 3) {
             // emissions in order
-            let emits: Vec<(u64, Option<u64>, Vec<u64>)> = r
+            let emits: Vec<(u64, Option<u64>, Vec<u64>, u64, libp2p_identity::PeerId)> = r
                 .log
                 .iter()
                 .filter(|x| x.node == node && x.field == field)
-                .filter_map(|x| if let Entry::EmitNotify { one, n, snapshot, .. } = &x.entry { Some((*n, *one, snapshot.clone())) } else { None })
+                .filter_map(|x| if let Entry::EmitNotify { one, n, snapshot, peer } = &x.entry { Some((*n, *one, snapshot.clone(), x.seq, *peer)) } else { None })
                 .collect();
+            // the moment a connection's task closed its command channel is visible as the handler's poll_close
+            // (task.rs: command_receiver.close() is directly followed by connection.close(), whose event stream
+            // is handler.poll_close); from then on the connection cannot accept a notification any more
+            let mut closing_at: BTreeMap<u64, u64> = BTreeMap::new();
+            let mut delivered_at: BTreeMap<u64, u64> = BTreeMap::new();
+            let mut established_at: Vec<(libp2p_identity::PeerId, u64, u64)> = vec![];
+            for x in r.log.iter().filter(|x| x.node == node && x.field == field) {
+                match &x.entry {
+                    Entry::HPollClose { conn } | Entry::HDrop { conn } => {
+                        closing_at.entry(*conn).or_insert(x.seq);
+                    }
+                    Entry::HBehaviourEvent { n, .. } => {
+                        delivered_at.entry(*n).or_insert(x.seq);
+                    }
+                    Entry::Swarm(simswarm::probe::FS::Established { conn, peer, .. }) => established_at.push((*peer, *conn, x.seq)),
+                    _ => {}
+                }
+            }
             // deliveries: n -> conns
             let mut deliv: BTreeMap<u64, Vec<u64>> = BTreeMap::new();
             let mut per_handler: BTreeMap<u64, Vec<u64>> = BTreeMap::new();
@@ -45,12 +64,22 @@ fn check(case: &Case) -> Outcome {
             }
             // a delivery for an event that was never emitted by this field
             for (n, conns) in &deliv {
-                if !emits.iter().any(|(m, _, _)| m == n) {
+                if !emits.iter().any(|(m, ..)| m == n) {
                     return Outcome::fail("C07:handler-received-event-never-emitted-by-its-behaviour", json!({"node": node, "field": field, "n": n, "conns": conns}));
                 }
             }
-            for (n, one, snapshot) in &emits {
+            for (n, one, snapshot, eseq, epeer) in &emits {
                 let d = deliv.get(n).cloned().unwrap_or_default();
+                if one.is_none() {
+                    // generator distribution: the two situations in which the Any candidate set matters
+                    if snapshot.len() >= 2 && snapshot.iter().any(|c| closing_at.get(c).map(|s| s < eseq).unwrap_or(false)) && snapshot.iter().any(|c| !closed.contains(c)) {
+                        labels.push("any_emitted_with_a_closing_and_a_lasting_candidate");
+                    }
+                    let until = delivered_at.get(n).cloned().unwrap_or(u64::MAX);
+                    if !snapshot.is_empty() && established_at.iter().any(|(p, c, s)| p == epeer && !snapshot.contains(c) && s > eseq && *s < until) {
+                        labels.push("new_connection_of_peer_while_any_event_waits");
+                    }
+                }
                 if d.len() > 1 {
                     return Outcome::fail("C07:event-delivered-more-than-once", json!({"node": node, "field": field, "n": n, "to": d}));
                 }
@@ -68,10 +97,22 @@ fn check(case: &Case) -> Outcome {
                         labels.push("dropped_for_closed_target");
                     }
                     (None, None) => {
-                        // an `Any` event is handed to one candidate; if that one is closing it may be lost with it.
-                        // It must not be lost when *no* candidate ever closed.
+                        // an `Any` event is handed to one candidate; if that one closes before its task processed the
+                        // event, the event is lost with it. A candidate whose task had already closed its command
+                        // channel at emission time can never be handed the event, so it cannot excuse the loss: if some
+                        // candidate could still accept the event, the loss needs such a candidate to have closed later
+                        // (if every candidate was already closing, dropping the event is what the statement allows).
                         if !snapshot.is_empty() && snapshot.iter().all(|c| !closed.contains(c)) {
                             return Outcome::fail("C07:any-event-lost-although-every-candidate-connection-stayed-open", json!({"node": node, "field": field, "n": n, "snapshot": snapshot}));
+                        }
+                        // candidates that could still accept the event when it was emitted
+                        let alive: Vec<u64> = snapshot.iter().filter(|c| !closing_at.get(*c).map(|s| s < eseq).unwrap_or(false)).cloned().collect();
+                        if !alive.is_empty() && alive.iter().all(|c| !closed.contains(c)) {
+                            let closing: Vec<u64> = snapshot.iter().filter(|c| !alive.contains(*c)).cloned().collect();
+                            return Outcome::fail(
+                                "C07:any-event-lost-although-only-already-closing-candidates-closed",
+                                json!({"node": node, "field": field, "n": n, "snapshot": snapshot, "command_channel_already_closed_at_emission": closing, "could_accept_and_stayed_open": alive}),
+                            );
                         }
                         labels.push("dropped_for_closed_target");
                     }
